@@ -101,6 +101,7 @@ struct Ctx {
 	std::string failmsg;
 	std::string log;
 	std::vector<const char *> classes; // string literals only
+	std::vector<std::pair<const char *, unsigned long>> sums; // additive counters (string literal names)
 
 	explicit Ctx(Tape &tape) : t(tape), params(nullptr) {}
 
@@ -110,6 +111,15 @@ struct Ctx {
 			if (c == name || !strcmp(c, name))
 				return;
 		classes.push_back(name);
+	}
+	void sum(const char *name, unsigned long n)
+	{
+		for (auto &kv : sums)
+			if (kv.first == name || !strcmp(kv.first, name)) {
+				kv.second += n;
+				return;
+			}
+		sums.push_back({ name, n });
 	}
 	void note(const char *fmt, ...) __attribute__((format(printf, 2, 3)))
 	{
